@@ -86,7 +86,31 @@ pub fn c08(req: &J) -> J {
         };
         let min = mk(0).base_fee(1001, 0, |c| melvm::covenant_weight_from_bytes(c)).0;
         let min = mk(min + tip).base_fee(1001, 0, |c| melvm::covenant_weight_from_bytes(c)).0;
-        next.apply_tx(&mk(min + tip)).expect("tx");
+        let first = mk(min + tip);
+        next.apply_tx(&first).expect("tx");
+        // optionally the block also carries a Stake transaction whose document parses but is not a stake (it ends when it starts):
+        // the state-transition function accepts it as an ordinary transfer and registers nothing
+        let mut stake_out: Option<CoinID> = None;
+        if req["unregistered_stake"].as_bool().unwrap_or(false) {
+            let doc = melstructs::StakeDoc { pubkey: tmelcrypt::Ed25519PK([3u8; 32]), e_start: 5, e_post_end: 5, syms_staked: CoinValue(123) };
+            let symcoin = CoinID { txhash: melstructs::TxHash(HashVal([0x77u8; 32])), index: 0 };
+            vh::insert_coin(&mut next, symcoin, melstructs::CoinDataHeight { coin_data: CoinData { covhash: always_true_covhash(), value: CoinValue(500), denom: Denom::Sym, additional_data: Default::default() }, height: 0.into() });
+            let mks = |fee: u128| Transaction {
+                kind: TxKind::Stake,
+                inputs: vec![first.output_coinid(0), symcoin],
+                outputs: vec![CoinData { covhash: always_true_covhash(), value: CoinValue(500), denom: Denom::Sym, additional_data: Default::default() },
+                              CoinData { covhash: always_true_covhash(), value: CoinValue((1 << 64) - (min + tip) - fee), denom: Denom::Mel, additional_data: Default::default() }],
+                fee: CoinValue(fee),
+                covenants: vec![melvm::Covenant::always_true().to_bytes()],
+                data: stdcode::serialize(&doc).unwrap().into(),
+                sigs: vec![],
+            };
+            let f = mks(0).base_fee(1001, 0, |c| melvm::covenant_weight_from_bytes(c)).0;
+            let f = mks(f).base_fee(1001, 0, |c| melvm::covenant_weight_from_bytes(c)).0;
+            let stx = mks(f);
+            next.apply_tx(&stx).expect("unregistered stake tx is an ordinary transfer");
+            stake_out = Some(stx.output_coinid(0));
+        }
         // optionally move the stop point to another height (the previous header is made up, the rest of the state stays)
         // and register stakes, so that epoch boundaries and expiring stakes are reachable quickly
         if let Some(height) = req["height"].as_u64() {
@@ -118,11 +142,33 @@ pub fn c08(req: &J) -> J {
         let b = melstf::SealedState::from_block(&a.to_block(), &a.raw_stakes(), &db);
         let same_header = a.header() == b.header();
         let follow = Some(ProposerAction { fee_multiplier_delta: -3, reward_dest: Address(HashVal([4u8; 32])) });
-        let na = a.next_unsealed().seal(follow);
-        let nb = b.next_unsealed().seal(follow);
+        let (mut ua, mut ub) = (a.next_unsealed(), b.next_unsealed());
+        let mut same_verdict = true;
+        if let Some(cid) = stake_out {
+            // the continuation spends the output of that transaction: both lineages must give the same verdict
+            let mel = CoinID { txhash: cid.txhash, index: 1 };
+            let v = a.coin(mel).map(|c| c.coin_data.value.0).unwrap_or(0);
+            let sp = |fee: u128| Transaction {
+                kind: TxKind::Normal,
+                inputs: vec![cid, mel],
+                outputs: vec![CoinData { covhash: always_true_covhash(), value: CoinValue(500), denom: Denom::Sym, additional_data: vec![1u8].into() },
+                              CoinData { covhash: always_true_covhash(), value: CoinValue(v - fee), denom: Denom::Mel, additional_data: vec![1u8].into() }],
+                fee: CoinValue(fee),
+                covenants: vec![melvm::Covenant::always_true().to_bytes()],
+                data: Default::default(),
+                sigs: vec![],
+            };
+            let mult = a.header().fee_multiplier;
+            let f = sp(0).base_fee(mult, 0, |c| melvm::covenant_weight_from_bytes(c)).0;
+            let f = sp(f).base_fee(mult, 0, |c| melvm::covenant_weight_from_bytes(c)).0;
+            let (ra, rb) = (ua.apply_tx(&sp(f + 10)).is_ok(), ub.apply_tx(&sp(f + 10)).is_ok());
+            same_verdict = ra == rb;
+        }
+        let na = ua.seal(follow);
+        let nb = ub.seal(follow);
         let reward_a = na.coin(CoinID::proposer_reward(na.header().height)).map(|c| c.coin_data.value.0.to_string());
         let reward_b = nb.coin(CoinID::proposer_reward(nb.header().height)).map(|c| c.coin_data.value.0.to_string());
-        (same_header, na.header() == nb.header(), reward_a, reward_b)
+        (same_header, na.header() == nb.header() && same_verdict, reward_a, reward_b)
     }));
     match r {
         Ok((h, n, ra, rb)) => json!({"panicked": false, "same_header": h, "same_next_header": n, "next_reward_original": ra, "next_reward_rebuilt": rb}),
